@@ -1,5 +1,6 @@
 import NgoVerif.Generated.Tables
 import NgoVerif.Meta.Algebra
+import NgoVerif.Model.SumAgg
 /-!
 # C13 — sum_chains: chained weights add up to the original sum or objective
 
@@ -33,5 +34,48 @@ own declaration lists, under the parameter names the class declares, and replace
 theorem C13_wiring :
     Tables.API_ARGS.lookup "sum_chains" = some (["input_", "input_predicates"], "input_", "input_") ∧
     Tables.CTOR_PARAMS.lookup "sum_chains" = some ["prg", "input_predicates"] := by decide
+
+/-! ## decision kernel of the model of `_calc_at_most` (`Model/SumAgg.lean`, tied to the code by `corr_sumagg.py`) -/
+open SumAgg in
+theorem atMostLoop_single (prg : Prog) : ∀ (ps : List Pred) (am al am' al' : List SumAgg.APred),
+    (∀ a ∈ am, (rulesThatDerive prg a.pred).length = 1 ∧ a.pred ∈ ps ∨ (rulesThatDerive prg a.pred).length = 1) →
+    atMostLoop prg ps am al = .ok (am', al') →
+    ∀ a ∈ am', (rulesThatDerive prg a.pred).length = 1
+  | [], am, al, am', al', hinv, h, a, ha => by
+    simp only [atMostLoop, pure, Except.pure, Except.ok.injEq, Prod.mk.injEq] at h
+    obtain ⟨rfl, _⟩ := h
+    rcases hinv a ha with h1 | h1
+    · exact h1.1
+    · exact h1
+  | p :: ps, am, al, am', al', hinv, h, a, ha => by
+    simp only [atMostLoop] at h
+    split at h
+    · rename_i r hr
+      simp only [bind, Except.bind] at h
+      split at h
+      · cases h
+      · rename_i ml hml
+        refine atMostLoop_single prg ps _ _ am' al' ?_ h a ha
+        intro b hb
+        right
+        rcases List.mem_append.mp hb with hb | hb
+        · rcases hinv b hb with h1 | h1
+          · exact h1.1
+          · exact h1
+        · have hp : b.pred = p := by simpa using (List.mem_filter.mp hb).2
+          rw [hp, hr]; rfl
+    · refine atMostLoop_single prg ps am al am' al' ?_ h a ha
+      intro b hb
+      right
+      rcases hinv b hb with h1 | h1
+      · exact h1.1
+      · exact h1
+
+open SumAgg in
+/-- **at-most-one is only ever claimed for a predicate with exactly one defining rule** (the invariant whose violation
+was the defect repaired in d2294ea: the bound of a choice/aggregate head says nothing about atoms a second rule derives) -/
+theorem C13_atmost_single_rule (prg : Prog) (inputs : List Pred) (am al : List SumAgg.APred)
+    (h : calcAtMost prg inputs = .ok (am, al)) : ∀ a ∈ am, (rulesThatDerive prg a.pred).length = 1 :=
+  atMostLoop_single prg _ [] [] am al (by intro a ha; cases ha) h
 
 end NgoVerif
